@@ -23,7 +23,7 @@ def run(tier):
     ck.add_tlc("tlc:transformations", r)
     if not r.ok:
         ck.spec_error("GraphPackMC/model", r)
-    fams = ["enum3", "enum4", "ff", "ff4", "big24"] if tier == "quick" else ["enum3", "enum4", "ff", "ff4", "big24", "enum4t"]
+    fams = ["enum3", "enum4", "ff", "ff4", "big24", "enum4tq"] if tier == "quick" else ["enum3", "enum4", "ff", "ff4", "big24", "enum4t"]
     for fam in fams:
         r = vlib.run_tlc(wd, "GraphPackMC", cfg="GraphPackMC_%s.cfg" % fam, workers=6 if tier == "quick" else 14, out_name=fam + ".out", timeout=3000)
         ck.add_tlc("tlc:" + fam, r)
